@@ -119,11 +119,11 @@ func ylist(ys []yop) string {
 
 type hist struct {
 	overwrites int
-	backend string
-	shards  int
-	maxb    int64
-	memcap  int64
-	gen     string
+	backend    string
+	shards     int
+	maxb       int64
+	memcap     int64
+	gen        string
 
 	c      store
 	cfg    *config.Config
@@ -690,8 +690,13 @@ func (g *genCtx) genMixed(backend string) {
 				sz = 2
 			}
 			sh := g.r.Intn(64)
+			id := g.next
+			if len(h.live) > 0 && g.r.Chance(25) { // an overwrite of a stored key
+				id = g.pickLive(h)
+				sh = h.live[id].shard
+			}
 			held := g.heldSubset(h, map[int]bool{sh % shards: true}, 10)
-			h.opStore(g.next, sh, sz, g.age(false), emit.Pick(g.r, expChoices), held, g.r)
+			h.opStore(id, sh, sz, g.age(false), emit.Pick(g.r, expChoices), held, g.r)
 		case k < 10:
 			if len(h.live) > 0 {
 				h.opTouch(g.pickLive(h), emit.Pick(g.r, []int64{0, 0, 1, 3}))
@@ -720,6 +725,27 @@ func (g *genCtx) genMixed(backend string) {
 
 // directed boundary histories, always present
 func (g *genCtx) genDirected(backend string) {
+	// an overwrite between two scans (no insert / delete in between): the second scan must see the NEW entry's
+	// lifetime, last access and size
+	for _, viaEvict := range []bool{false, true} {
+		for _, shards := range []int{1, 64} {
+			h := newHist(backend, shards, huge, huge, "overwrite-between-scans")
+			h.opStore(1, 1, 100, 5000, 3600000, nil, g.r)
+			h.opStore(2, 2, 100, 3000, 3600000, nil, g.r)
+			h.opStore(3, 3, 100, 1000, 3600000, nil, g.r)
+			h.opCycle(true, nil, nil) // scan 1: nothing to do
+			if viaEvict {
+				h.opEvict(1000, nil)                       // a second scan that removes nothing either
+				h.opStore(1, 1, 150, 0, 3600000, nil, g.r) // the least recently used entry is rewritten: now the most recent
+				h.opEvict(375, nil)                        // target 300: the victim is entry 2, then 3 — never the one just written
+			} else {
+				h.opStore(1, 1, 150, 0, 2000, nil, g.r) // rewritten with a 2 s lifetime
+				h.opAdvance(5000)
+				h.opCycle(true, nil, nil) // its lifetime has elapsed: removed
+			}
+			g.finish(h)
+		}
+	}
 	// exactly at the limit evicts, one byte below does not (store and cycle)
 	for _, delta := range []int64{-1, 0, 1} {
 		for _, viaCycle := range []bool{false, true} {
